@@ -16,6 +16,10 @@ The link is ended at the k-th exchange by one of the causes
                pdu.encode() fails in the link loop, which has to treat that like any other failed exchange
     unencodable-name  same with a service name of 256 octets that neither an SDREQ (resolve) nor a CONNECT SN
                parameter (connect by name) can carry; both ends announce a MIU that lets the PDU pass collect()
+    unencodable-type  same with sendto(b"hello", "33"): a destination address of the wrong type, which the socket
+               layer does not check either; pdu.encode() fails with TypeError in the link loop
+    (should the socket layer reject such a call - nfc.llcp.Error, TypeError or ValueError to the caller that made
+    it - or the link survive it, the case falls back to cause "local": counter unencodable_fallback_local)
 
 Oracle (structural, never elapsed time):
   1. after the run loops have ended, once all workload threads show zero progress (sys.monitoring LINE counter of
@@ -44,7 +48,6 @@ path (sys.monitoring LINE hook) until the link has ended: systematic single pree
 """
 import errno
 import itertools
-import logging
 import random
 import sys
 import threading
@@ -65,9 +68,9 @@ from vf.sim.llcpair import ThreadedPair
 
 ID = "C09"
 LEVEL = "exploration"
-RULE = ("case = (cause of termination x end that experiences it x deactivate variant: 11 combinations, among them an "
-        "error in the link loop caused by an unencodable outgoing PDU - sendto() to address 64, blocking and "
-        "MSG_DONTWAIT, or resolve()/connect() of a 256 octet service name, issued by an application thread at "
+RULE = ("case = (cause of termination x end that experiences it x deactivate variant: 13 combinations, among them an "
+        "error in the link loop caused by an unencodable outgoing PDU - sendto() to address 64 or to address '33' "
+        "(a string), blocking and MSG_DONTWAIT, or resolve()/connect() of a 256 octet service name, issued by an application thread at "
         "exchange k) x exchange number "
         "k in 2..40 at which the link ends, both enumerated; x assignment of 20 application roles (blocked recv / accept / "
         "connect by SAP and by name / resolve / send on a closed window / sendto / recvfrom / poll recv,send,acks with "
@@ -95,15 +98,21 @@ ASSUMPTIONS = [
     "thread schedules are sampled (yield injection at statement starts in nfc/llcp) plus one directed preemption per "
     "directed case; they are not enumerated beyond that",
     "run() raising SystemExit on the IOError path is accepted because the repository's tests pin it",
+    "unencodable-* causes: the application thread makes its call when the MAC hook reports exchange k; "
+    "nfc.llcp.pdu.encode is wrapped by a pass-through that records failed calls (evidence only); TypeError/ValueError "
+    "raised to the thread that made the bad call are accepted for that one call (argument errors); if the stack "
+    "refuses the call or the link is still up 2 s later the case goes on with a local terminate request and is "
+    "labelled 'local' (this wait selects the cause that is exercised, it decides no verdict)",
     "a thread is 'blocked forever' when, after both link loops have ended and all watched threads are quiescent, it "
     "sits in an untimed Condition.wait called from nfc code whose waiter lock nobody has released; no other "
     "workload thread shares its socket (except the thread that later issues close(), after the verdict)",
 ]
 REQUIRED = ["terminations", "terminations/local", "terminations/remote", "terminations/disrupt",
-            "terminations/ioerror-deact-noop", "terminations/ioerror-deact-raises", "terminations/unencodable-ui",
-            "terminations/unencodable-name", "unencodable_calls_before_termination",
-            "unencodable_link_loop_returned/fake", "unencodable_link_loop_returned/dep",
-            "unencodable_connect_returned/udp", "blocked_at_term_calls",
+            "terminations/ioerror-deact-noop", "terminations/ioerror-deact-raises",
+            # the unencodable call was made on a live link at exchange k (it then either ended the link through the
+            # link loop - terminations/unencodable-* - or was refused / survived: unencodable_fallback_local)
+            "unencodable_cases/ui", "unencodable_cases/name", "unencodable_cases/type", "unencodable_cases_mac/fake",
+            "unencodable_cases_mac/dep", "unencodable_cases_mac/udp", "blocked_at_term_calls",
             "after_calls_old", "after_calls_new", "service_threads_started", "service_threads_exited",
             "quiescence_waits", "directed_holds_reached_before_termination", "cases_mac_dep", "cases_mac_fake",
             "cases_mac_udp"]
@@ -117,8 +126,10 @@ HOLE = b"urn:nfc:sn:vf-hole"
 LATE_NAME = b"urn:nfc:sn:vf-late"
 BAD_SAP = 64                                   # not a 6 bit address: the UI PDU cannot be encoded
 LONG_NAME = b"urn:nfc:sn:vf-long." + b"n" * 237  # 256 octets: neither SDREQ nor SN can carry it
-UNENC = ("unencodable-ui", "unencodable-name")
-UNENC_HOW = {"unencodable-ui": ("sendto-nb", "sendto"), "unencodable-name": ("resolve", "connect")}
+BAD_TYPE_SAP = "33"                            # not an integer: encode_header() fails with TypeError
+UNENC = ("unencodable-ui", "unencodable-name", "unencodable-type")
+UNENC_HOW = {"unencodable-ui": ("sendto-nb", "sendto"), "unencodable-name": ("resolve", "connect"),
+             "unencodable-type": ("sendto-nb", "sendto")}
 DEFAULT_MIU = {"A": 200, "B": 300}
 UNENC_MIU = {"A": 320, "B": 300}               # the PDU with the long name must pass collect() (send MIU >= 259)
 
@@ -126,16 +137,8 @@ _real_time = time
 _orig_thread_start = threading.Thread.start
 _started = []              # (thread, creator) for every Thread.start() in this process (service thread accounting)
 _uncaught = []             # (thread, exc_sig) from threading.excepthook
-_encode_errors = []        # warnings of nfc.llcp.llc that report a pdu.EncodeError (exchange() handled it)
-
-
-class _EncodeErrorLog(logging.Handler):
-    def emit(self, record):
-        try:
-            if "EncodeError" in record.getMessage():
-                _encode_errors.append(threading.current_thread().name)
-        except Exception:
-            pass
+_encode_errors = []        # exception type names of failed nfc.llcp.pdu.encode() calls (observation only)
+_orig_pdu_encode = P.encode
 
 
 class _FastTime:
@@ -166,7 +169,14 @@ def _install_process_hooks():
             pass
     threading.excepthook = hook
     L.time = _FastTime()
-    logging.getLogger("nfc.llcp.llc").addHandler(_EncodeErrorLog(logging.WARNING))
+
+    def encode(pdu):                     # what exchange() calls; the exception is passed on unchanged
+        try:
+            return _orig_pdu_encode(pdu)
+        except Exception as e:
+            _encode_errors.append(type(e).__name__)
+            raise
+    P.encode = encode
 
 
 # =========================================================================================================
@@ -174,7 +184,8 @@ def _install_process_hooks():
 CAUSES = [("local", "A", "noop"), ("local", "B", "noop"), ("disrupt", "A", "noop"),
           ("ioerror", "A", "noop"), ("ioerror", "A", "raises"), ("ioerror", "B", "noop"), ("ioerror", "B", "raises"),
           ("unencodable-ui", "A", "noop"), ("unencodable-ui", "B", "noop"),
-          ("unencodable-name", "A", "noop"), ("unencodable-name", "B", "noop")]
+          ("unencodable-name", "A", "noop"), ("unencodable-name", "B", "noop"),
+          ("unencodable-type", "A", "noop"), ("unencodable-type", "B", "noop")]
 K_MIN, K_MAX = 2, 40
 
 
@@ -281,6 +292,9 @@ class Ctx:
         self.hold_state = {"armed": False, "count": {}, "held": None, "done": False, "timeout": False}
         self.fire = threading.Event()        # unencodable-*: exchange k reached, the application thread makes its call
         self.unenc_rec = None                # call record of that call
+        self.unenc_rejected = None           # the socket layer refused the call (argument error to the caller)
+        self.unenc_fallback = False          # the call did not end the link: local terminate request instead
+        self.local_term = None               # callable(end): turn this end's terminate callback true
 
     def llc(self, end):
         return self.llcs[end] if end in self.llcs else (self.pair.a if end == "A" else self.pair.b)
@@ -314,9 +328,12 @@ class Ctx:
             rec, term = self.unenc_rec, self.term[d["end"]]
             if rec is None or (term is not None and rec[2] > term):
                 return "disrupt"
+            if self.unenc_fallback:
+                return "local" if end == d["end"] else "remote"
             if end == d["end"]:
                 return d["cause"]
-            return "remote" if d["end"] == "B" else "disrupt"
+            died = str(self.run_out.get(d["end"], "")).startswith("escape:")      # then nobody sent a DISC
+            return "remote" if d["end"] == "B" and not died else "disrupt"
         if end == d["end"]:
             return "ioerror-deact-" + ("raises" if d.get("mac") in ("dep", "udp") else d["deact"])
         return "disrupt"
@@ -688,16 +705,41 @@ def r_unencodable(w):
     def call(kind, fn, *a):
         def marked():
             ctx.unenc_rec = w.cur
-            return fn(*a)
-        return w.do(kind, s, marked)
+            try:
+                return fn(*a)
+            except (TypeError, ValueError) as e:      # argument error reported to the caller that made the bad call
+                ctx.unenc_rejected = exc_sig(e)
+                return "rejected"
+        ok, val = w.do(kind, s, marked)
+        if (not ok or ctx.unenc_rejected) and ctx.term[w.end] is None and ctx.ended[w.end] is None:
+            unenc_fallback(ctx)                       # refused on a live link: end the link by local choice
+    dest = BAD_TYPE_SAP if d["cause"] == "unencodable-type" else BAD_SAP
     if how == "sendto":
-        call("sendto", s.sock.sendto, b"hello", BAD_SAP)
+        call("sendto", s.sock.sendto, b"hello", dest)
     elif how == "sendto-nb":
-        call("sendto-nb", s.sock.sendto, b"hello", BAD_SAP, nfc.llcp.MSG_DONTWAIT)
+        call("sendto-nb", s.sock.sendto, b"hello", dest, nfc.llcp.MSG_DONTWAIT)
     elif how == "resolve":
         call("resolve", s.sock.resolve, LONG_NAME)
     else:
         call("connect", s.sock.connect, LONG_NAME)
+
+
+def unenc_fallback(ctx):
+    if not ctx.unenc_fallback and ctx.local_term is not None:
+        ctx.unenc_fallback = True
+        ctx.local_term(ctx.desc["end"])
+
+
+def unenc_guard(ctx):
+    """harness thread: if the link is still up some time after the call (the stack dropped the PDU or refused the
+    call), the case goes on with a local terminate request; decides which cause is exercised, never a verdict"""
+    end = ctx.desc["end"]
+    ctx.fire.wait()
+    for _ in range(400):
+        if ctx.term[end] is not None or ctx.ended[end] is not None:
+            return
+        _real_time.sleep(0.005)
+    unenc_fallback(ctx)
 
 
 ROLES = {
@@ -1326,6 +1368,7 @@ def run_case(desc, env):
     def before(pair):
         pair.ctx = ctx
         ctx.pair = pair
+        ctx.local_term = lambda e: setattr(pair, "term_a" if e == "A" else "term_b", True)
         extend_macs(pair, ctx)
         for e in "AB":
             infra.extend(build_infra(ctx, e))
@@ -1359,6 +1402,7 @@ def start_roles(ctx, desc):
     stag = desc.get("stagger", 0)
     if desc["cause"] in UNENC:
         Worker(ctx, desc["end"], "unencodable", r_unencodable, 1).start()
+        threading.Thread(target=unenc_guard, args=(ctx,), name="vf-unenc-guard", daemon=True).start()
     for i, (name, e) in enumerate(desc["roles"]):
         Worker(ctx, e, name, ROLES[name], 1).start()
         if stag and i % stag == 0:
@@ -1397,10 +1441,17 @@ def finish_case(ctx, env, res):
                                    % ("ContactlessFrontend.connect()" if mode == "udp" else "LogicalLinkController.run()",
                                       e, ctx.cause_at(e), ctx.run_err.get(e)),
                                    {"cause": ctx.cause_at(e), "mode": mode}))
+        if desc["cause"] in UNENC and e == desc["end"] and (ctx.cause_at(e) in UNENC or ctx.cause_at(e) == "local"):
+            res.count("unencodable_cases/" + desc["cause"].split("-")[1])
+            res.count("unencodable_cases_mac/" + mode)
+            if ctx.unenc_fallback:
+                res.count("unencodable_fallback_local")
+                res.see("unencodable_rejected_by_socket_layer", str(ctx.unenc_rejected))
         if ctx.cause_at(e) in UNENC:
             res.count("unencodable_calls_before_termination")
             res.count("unencodable_how/" + desc["how"])
-            res.count("unencodable_encode_errors_handled_by_link_loop", len(_encode_errors) - ctx.encode_error_mark)
+            for name in _encode_errors[ctx.encode_error_mark:]:
+                res.count("unencodable_encode_failures_in_link_loop/" + name)
             if out == "returned":
                 res.count(("unencodable_connect_returned/" if mode == "udp" else "unencodable_link_loop_returned/") + mode)
     for e in "AB":
@@ -1517,6 +1568,7 @@ def run_case_udp(desc, env):
             if ctx.dead[e] and stacks.get(e) is cur:
                 return IOError(errno.EIO, "injected I/O error (host link to the device)")
         return None
+    ctx.local_term = lambda e: st["term"].__setitem__(e, True)
     net.observers.append(observer)
     net.hook = hook
     net.sock_fault = sock_fault
